@@ -108,6 +108,38 @@ def _size(n: ast.AST) -> int:
 
 
 # ------------------------------------------------------------- K9 forwarding
+def rule_passthrough_names(ctx: Ctx, rule: str, cls: ClassInfo, what: str) -> int:
+    """A parameter handed on to a method that has a parameter of the same name lands on THAT parameter.
+
+    ``def untransform_vect(self, vector, no_check=False)`` calling ``self.unnormalize_vect(vector, no_check)`` binds the
+    flag to the callee's second parameter (``minus_lb``) although the callee has a ``no_check`` of its own: the call
+    type-checks, runs, and silently changes the meaning of both flags.  Decided on the binding parameter -> argument
+    that the call normalisation (gv.canon) computes from the signatures of the analysed tree.
+    """
+    n = 0
+    for mname, f in sorted(cls.methods.items()):
+        own = set(param_names(f)) - {"self", "cls"}
+        for call in walk_body(f):
+            if not isinstance(call, ast.Call) or not isinstance(call.func, ast.Attribute) or dotted(call.func.value) not in ("self", "super()", "cls"):
+                continue
+            if any(isinstance(a, ast.Starred) for a in call.args):
+                continue
+            # the callee as this class sees it (a subclass may extend the signature: its own calls are checked there)
+            found = ctx.index.resolve_method(cls, mangle(cls.name, call.func.attr)) or ctx.index.resolve_method(cls, call.func.attr)
+            if found is None:
+                continue
+            callee = [p_ for p_ in param_names(found[1]) if p_ not in ("self", "cls")]
+            if len(call.args) > len(callee):
+                continue
+            bind = {callee[i]: a for i, a in enumerate(call.args)}
+            bind.update({k.arg: k.value for k in call.keywords if k.arg})
+            for p_, a in bind.items():
+                if isinstance(a, ast.Name) and a.id in own and a.id in callee:
+                    n += 1
+                    ctx.ob(rule, cname(cls.module.relpath, cls.qualname, mname), a.id == p_, f"{what}: `{a.id}` is passed to {call.func.attr}() as its parameter `{p_}` although {call.func.attr}() has a parameter `{a.id}`: a positional argument landed on the wrong parameter", node=call, stmt=f"{a.id} reaches the parameter {a.id} of {call.func.attr}")
+    return n
+
+
 def rule_forwarding(ctx: Ctx, rule: str, base: ClassInfo, methods: Iterable[str], what: str) -> int:
     """An override that delegates to ``super().m(...)`` forwards every shared parameter.
 
